@@ -5,3 +5,15 @@ add("C04", "rapid-generated grammars vs. independent canonical-LR(1)->LALR(1) re
     "Generated-input search: thousands of random grammars (not filtered by acceptance) per run; verdict and full automaton compared with an independent reference construction; 5% also through the real codegen.Generate diagnostic path. Shows absence of disagreement on the explored grammars only.",
     "Trusts the reference LALR(1) construction in harness/lib/cfgm (cross-checked against Earley by C01) and the documented desugaring; canonical LR(1) capped at 3000 states (skips counted).",
     "DESIGN.md §3 C04")
+add("C01", "rapid-generated grammars x token sequences vs. Earley recogniser (membership oracle, both directions) on lox's table and on the compiled parser",
+    "Generated-input search in two layers: thousands of grammars through lox's in-process LALR table, hundreds compiled end to end (real codegen.Generate + go build) and run on >100 sequences each; every verdict compared with an independent Earley recogniser.",
+    "Trusts the Earley recogniser and the documented desugaring; the harness _Lexer hands out token ids (the generated lexer is C02's subject).",
+    "DESIGN.md §3 C01")
+add("C03", "rapid-generated grammars x sentences; compiled parser's action log and result tree vs. the self-certified reference derivation tree (differential)",
+    "Generated-input search over sugar-heavy conflict-free grammars compiled end to end; for every sentence the numbered result tree (structure, argument order, sugar values, call order) must equal the projection of an independently computed, node-by-node validated derivation tree.",
+    "Trusts the reference LALR(1) parser only as far as its tree passes validation against the grammar; harness Discard() functions are deterministic.",
+    "DESIGN.md §3 C03")
+add("C16", "rapid-generated grammars x sentences; _onBounds event log vs. spans of the reference derivation tree, plus with/without-_onBounds differential",
+    "Generated-input search: every grammar compiled with and without _onBounds; exact sequence of (value, first, last) calls compared with the reference tree's reductions; differential run shows the hook changes nothing else.",
+    "Same trusted base as C03; for *! helpers only value and ordered bounds are compared.",
+    "DESIGN.md §3 C16")
